@@ -27,6 +27,9 @@ CHECKS = {
  "C17": dict(cat="exploration", ref="§3 C17",
    text="Exhaustive small-domain enumeration (full products of boundary values, no random generation) of every protocol structure: value→bytes→value equality, length prefixes equal to content lengths, minimal MPIs, bytes→value→bytes on every input the parsers accept from the C13 byte-string domain; DSA keys derived to hit odd hex digit counts, short x / y and embedded zero bytes: wire form, fingerprint against an independent SHA-1 over the specification's layout, key-file export→import (both importers) with every short account name over a 12-character alphabet; TLV payloads too long for the 16-bit length through the public API.",
    tech="exhaustive bounded enumeration of values (round-trip oracle on the real serialisers/parsers)"),
+ "C16": dict(cat="model_checking", ref="§3 C16",
+   text="(a) For every pair of policy sets (quick: 17×17 representatives, thorough: all version sets × all 16 flag combinations) and every offer form (literal queries incl. unknown versions and v1, the peer's own query, whitespace tags for every version set at start/middle/end, direct v2/v3 DH-Commit, v1 key exchange) the exchange is executed to quiescence on the real conversations and compared step by step with the reference model chosen = max(offered ∩ mine), session ⇔ chosen allowed by the peer; the version field of every emitted message is checked against the emitter's policy. (b) Every text of length ≤ 8/9 over {a, space, tab, ?} and every concatenation of ≤ 3 atoms around the whitespace tag, minus texts containing an OTR marker, must pass Send→Receive byte-exact under 4×3 policy combinations, OTR-disabled included.",
+   tech="exhaustive enumeration of configurations and inputs, each trace executed on the implementation and compared with a reference negotiation model"),
 }
 NA_REASON = "check not built yet (work in progress; see DESIGN.md §3 for the planned bounded exploration)"
 def main():
